@@ -79,7 +79,13 @@ def cold_engine(config):
     proto = _engines.get(('proto', config))
     if proto is None:
         proto = _engines[('proto', config)] = make_engine(config)
-    return copy.deepcopy(proto)
+    if not _engines.get(('proto-uncopyable', config)):
+        try:
+            return copy.deepcopy(proto)
+        except Exception:
+            # e.g. an engine that holds a lock: build a new one instead
+            _engines[('proto-uncopyable', config)] = True
+    return make_engine(config)
 
 
 def shared_engine(config):
